@@ -316,7 +316,17 @@ def run(ctx):
             os.makedirs(os.path.dirname(os.path.join(td, nme)), exist_ok=True)
             open(os.path.join(td, nme), "wb").write(b"hello")
         os.makedirs(os.path.join(td, "sub.d"), exist_ok=True)
-        for nme, spell in [(n, sp) for n in names for sp in spellings]:
+        # symbolic links: dispatch must follow the path string handed in, not the link target's name
+        links = [("link-notes.txt", "noext"), ("link-index.html", "f.TXT"), ("link-payload.bin", "a.docx"),
+                 ("link-sheet.xlsx", "sub.d/j.md"), ("sub.d/link-up.pdf", "../d.htm")]
+        for ln, target in links:
+            try:
+                os.symlink(target, os.path.join(td, ln))
+            except OSError:
+                pass
+        cases_rf = [(n, sp) for n in names for sp in spellings] + [(ln, spellings[0]) for ln, _ in links
+                                                                    if os.path.lexists(os.path.join(td, ln))]
+        for nme, spell in cases_rf:
             fp = spell(td, nme)
             called = []
             _, _, want, _ = impl_case(router, fp)
